@@ -206,6 +206,7 @@ def gen_c12(tier, rng):
                 ops.append("fld %s %s set %s %d set %s %d" % (cname, bg.hex(), f[0], v1, f[0], v2))
                 ops.append("fld %s default set %s %d set %s %d" % (cname, f[0], cands[0], f[0], cands[1 % len(cands)]))
         cases.append(Case("c12b", ops, nontrivial=True, tags=(cname, "write-on-data"), meta={"cls": cname}))
+    cases.append(c12_tecmp_crc_case())
     # variable-length parts (stream-id list with its pad byte, strings with NUL and pad, vendor data, data blocks): laid out by the
     # builders, on fresh objects and on objects that held other data — the C13 cases, judged here by the same layout predicate
     from . import gen_bld
@@ -217,8 +218,31 @@ def gen_c12(tier, rng):
     return cases
 
 
+def c12_tecmp_crc_case():
+    """KNOWN FINDING (known-findings.txt, open): TECMP::CanPayload::getCrc copies the three CRC bytes behind the data into an integer in HOST
+    order, so the big-endian wire value 0x123456 is read as 0x563412 (and the converter hands that to the ASAM CAN-FD payload).  Fixed script:
+    one TECMP CAN-FD data message with 12 data bytes and CRC bytes 12 34 56 (proved of the model: C12S.tecmp_can_crc_host_order / _witness)."""
+    import random
+    from . import gen_dec
+    pl = be_(0x1ABCDEF0, 4) + be_(12, 1) + bytes(range(1, 13)) + bytes([0x12, 0x34, 0x56])
+    fr = gen_dec.tecmp_frame(random.Random(12345), 3, 3, pl)
+    return Case("c12crc", ["tecmp " + fr.hex()], True, ("tecmp-can-crc-byte-order",), meta={"tecmp_crc": 0x123456, "noshrink": True})
+
+
+def be_(v, n):
+    return int(v).to_bytes(n, "big")
+
+
 def pred_c12(case, impl, model, ctx):
     """fixed header fields against the layout table (pred_c11); builder cases against the variable-part layout (pred_c13)"""
+    if case.meta.get("tecmp_crc") is not None:
+        # the CAN-FD payload the converter built: crc word = bytes 8..11, CRC in its low 21 bits; it must be the BIG-ENDIAN value of the wire bytes
+        l = impl[0] if impl else ""
+        parts = l.split(" ")
+        if len(parts) != 3 or parts[1] != "1":
+            return False
+        body = bytes.fromhex(parts[2].split(":")[-1])
+        return len(body) >= 12 and (int.from_bytes(body[8:12], "big") & 0x1FFFFF) == (case.meta["tecmp_crc"] & 0x1FFFFF)
     if case.meta.get("cls") is not None:
         return pred_c11(case, impl, model, ctx)
     if case.meta.get("kind") is not None:
